@@ -52,7 +52,9 @@ def to_rat(x, tol=12):
 
 def view_of(world):
     p = world.project()
-    objs = [{"k": o["k"], "v": [[to_rat(x, 6) for x in comp] for comp in o["v"]], "s": o["s"], "u": o["u"], "n": o["n"], "dt": o["dt"]}
+    # the rational is recovered within the precision of the stored type; a value whose exact rational has a
+    # denominator beyond the recovery bound is *not* replaced by a nearby smaller fraction (Inexact ends the trace)
+    objs = [{"k": o["k"], "v": [[to_rat(x, 6 if o["dt"] == "f4" else 11) for x in comp] for comp in o["v"]], "s": o["s"], "u": o["u"], "n": o["n"], "dt": o["dt"]}
             for o in p["objs"]]
     n = len(objs)
     share = [[i + 1, j + 1] for i in range(n) for j in range(i + 1, n) if p["share"][i][j]]
@@ -60,10 +62,23 @@ def view_of(world):
     if res["t"] == "dg":
         res = {"t": "dg", "keys": res["keys"],
                "mem": [{"kind": m["kind"], "scalar": m["scalar"], "unit": m["unit"], "name": m["name"], "dt": m["dt"],
-                        "c": [[to_rat(x, 6) for x in comp] for comp in m["c"]], "shares": m["shares"]} for m in (res["mem"][k] for k in res["keys"])]}
+                        "c": [[to_rat(x, 6 if m["dt"] == "f4" else 11) for x in comp] for comp in m["c"]], "shares": m["shares"]} for m in (res["mem"][k] for k in res["keys"])]}
     elif res["t"] == "exc":
         res = {"t": "exc", "e": "KeyError" if res["e"] == "KeyError" else "Error"}
     return {"state": {"objs": objs, "share": share, "dgs": p["dgs"], "dss": p["dss"]}, "res": res}
+
+
+def _numeric(x, digits=6, inval=False):
+    """a logged/expected state with every <<num, den, e>> under a value field ("v", "c") replaced by its value
+    rounded to `digits` significant digits: used only to tell a rejection caused by the rational recovery (same
+    numbers, different fractions) from a genuine one"""
+    if isinstance(x, dict):
+        return {k: _numeric(v, digits, inval or k in ("v", "c")) for k, v in x.items()}
+    if isinstance(x, list):
+        if inval and len(x) == 3 and all(isinstance(t, int) and not isinstance(t, bool) for t in x) and x[1] > 0:
+            return float("%.*g" % (digits, x[0] / x[1] * 10.0 ** x[2]))
+        return [_numeric(v, digits, inval) for v in x]
+    return x
 
 
 def choose_action(rng, w, focus, budget):
@@ -269,6 +284,12 @@ def run(rep, tier, seed, focus):
             truncated += 1          # the action is outside the specification's domain (driver issue), no verdict
             continue
         from .common import diff
+        if (diff(info["want"], ev["post"]["state"]) and not diff(_numeric(info["want"]), _numeric(ev["post"]["state"]))
+                and _numeric(info["res"]) == _numeric(ev["post"]["res"])):
+            # the same numbers written as different fractions: the recovery of rationals from floats reached its
+            # limit (a denominator beyond 10^6); no verdict on the rest of the trace
+            truncated += 1
+            continue
         d = diff(info["want"], ev["post"]["state"]) or f"result: spec {info['res']} != impl {ev['post']['res']}"
         a = ev["a"]
         sig = {"module": "Containers", "op": a["op"], "field": d.split(":")[0].split("[")[0].split(".")[-1], "focus": "trace"}
